@@ -57,7 +57,7 @@ TaWrite    == Step("ta_write", "open") /\ ta' = "ok" /\ UNCHANGED <<point, tmp, 
 (* StoredPoint::open *)
 Open ==
   /\ pc = "open"
-  /\ CASE point \in {"absent", "empty"} -> pc' = "create_creat"          \* not found / unreadable header: create
+  /\ CASE point \in {"absent", "empty", "torn"} -> pc' = "create_creat"  \* not found / header cut short: create
        [] point = "attempt" -> pc' = "reopen_truncate"
        [] OTHER -> pc' = IF scenario = "reject" THEN "reject_truncate" ELSE "tmp_header"
   /\ UNCHANGED <<point, tmp, status, ta>>
@@ -84,15 +84,25 @@ DoneWrite   == Step("done_write", "finished") /\ status' = "ok" /\ UNCHANGED <<p
 
 Kill == alive /\ pc # "finished" /\ alive' = FALSE /\ UNCHANGED <<point, tmp, status, ta, pc, scenario>>
 
+(* The header is written in pieces (version, length of a URI, its bytes,    *)
+(* ...): a kill between them leaves a header cut short.  Reading it ends in *)
+(* an early end of file, which StoredPoint::open takes like "no such file". *)
+(* Seeded fault "torn_is_fatal": the early end is reported as a hard error.  *)
+KillMidHeader ==
+  /\ alive /\ pc \in {"create_write", "reopen_write", "reject_write"}
+  /\ point' = "torn" /\ alive' = FALSE
+  /\ UNCHANGED <<tmp, status, ta, pc, scenario>>
+
 Ops == TaTruncate \/ TaWrite \/ Open \/ CreateCreat \/ CreateWrite \/ ReopenTrunc \/ ReopenWrite
        \/ RejectTrunc \/ RejectWrite \/ TmpHeader \/ TmpObjects \/ TmpFlush \/ Persist \/ CleanupTmp
        \/ DoneTrunc \/ DoneWrite
-Next == (alive /\ Ops /\ UNCHANGED <<alive, scenario>>) \/ Kill
+Next == (alive /\ Ops /\ UNCHANGED <<alive, scenario>>) \/ Kill \/ KillMidHeader
 Spec == Init /\ [][Next]_vars
 
 -----------------------------------------------------------------------------
 (* What the next command makes of the state it finds. *)
 PointUsable == point \in {"absent", "empty", "attempt", "old", "new"}     \* empty: unreadable header, re-created
+               \/ (point = "torn" /\ Variant # "torn_is_fatal")
 StoredVersion == IF point \in {"old", "new"} THEN point ELSE "none"
 StatusReadable == status \in {"absent", "ok"} \/ (Variant = "intended" /\ status = "empty")
 TaUsable == TRUE     \* an empty TA file does not decode; the download replaces it or the TAL yields nothing this run
